@@ -25,7 +25,28 @@ func init() {
 
 // isRecoveryHandler: a function called (transitively, only) from deferred recovering closures.
 func (w *World) isRecoveryHandler(fn *ssa.Function) bool {
-	if fn.Parent() != nil && len(recoverCalls(fn)) > 0 {
+	// the function that calls recover(): a deferred closure, or a method that is only ever deferred directly
+	recovers := func(f *ssa.Function) bool {
+		if len(recoverCalls(f)) == 0 {
+			return false
+		}
+		if f.Parent() != nil {
+			return true
+		}
+		sites := w.callersOf(f)
+		n := 0
+		for _, s := range sites {
+			if s.Parent() != nil && s.Parent().Synthetic != "" {
+				continue
+			}
+			if _, isDefer := s.(*ssa.Defer); !isDefer {
+				return false
+			}
+			n++
+		}
+		return n > 0
+	}
+	if recovers(fn) {
 		return true
 	}
 	callers := w.callersOf(fn)
@@ -33,8 +54,7 @@ func (w *World) isRecoveryHandler(fn *ssa.Function) bool {
 		return false
 	}
 	for _, c := range callers {
-		p := c.Parent()
-		if !(p.Parent() != nil && len(recoverCalls(p)) > 0) {
+		if !recovers(c.Parent()) {
 			return false
 		}
 	}
